@@ -333,3 +333,27 @@ def c19(pid, tier, replay):
             probe_env={"VERIF_CASES_LOGS": cases}, row_key=lambda r: json.dumps(r.get("shape", r.get("what"))) + str(r.get("stream")))
     finally:
         shutil.rmtree(gen, ignore_errors=True)
+
+
+def c20(pid, tier, replay):
+    # design level: the kill protocol as repaired satisfies NoSurvivor / Bounded for every tree shape; the original does not
+    with scratch("verif-c20m-") as work:
+        copy_specs(work, {"Procs.tla", "MC_Procs.tla", "MC_Procs.cfg", "MC_ProcsOrig.cfg"})
+        rc, out = tlc(work, "MC_Procs.tla", "MC_Procs.cfg", workers=2, timeout=300)
+        if "No error has been found" not in out:
+            raise Infra("Procs.tla (repaired protocol) check failed:\n" + out[-2000:])
+        rc, out2 = tlc(work, "MC_Procs.tla", "MC_ProcsOrig.cfg", workers=2, timeout=300)
+        if "NoSurvivor is violated" not in out2:
+            raise Infra("Procs.tla negative control did not fail")
+    return rows_engine(
+        pid, tier, {"RowsProcs.tla", "RowsProcs.cfg"}, "RowsProcs.tla", "RowsProcs.cfg", "TestProcs",
+        {"VERIF_ROWS_PROCS": "procs_rows.ndjson"},
+        lambda r: "shape=%s trigger=%s instant=%s survivors-at-report=%s survivors-after-grace=%s elapsed=%sms timeout=%sms reported=%s canceled=%s other-alive=%s" % (
+            r["shape"], r["trigger"], r["instant"], r["atReport"], r["afterGrace"], r["elapsedMs"], r["timeoutMs"], r["reported"], r["canceled"], r["otherAlive"]),
+        "Procs.tla models the kill protocol (own process group, SIGINT on cancel, SIGKILL after the timeout, Wait returns when the leader is gone "
+        "and the pipe has no writer) over all trees of a leader and two descendants x (ignores SIGINT, holds the pipe); TLC checks NoSurvivor and "
+        "Bounded. Real trees of the same classes run as /bin/sh tasks under the real TaskRunner; at the moment the job is first reported "
+        "finished, and 250 ms later, /proc is scanned for processes carrying the job's marker",
+        "one row per (process tree shape, cancel instant, trigger); distinct = distinct rows",
+        ["wall-clock bounds use the kill timeout (400 ms) + 1.5 s latency allowance", "10 tree shapes, not all shell programs"],
+        row_key=lambda r: r["shape"] + r["trigger"])
